@@ -11,7 +11,7 @@ import more_itertools
 
 from cirbo.core.boolean_function import RawTruthTableModel
 from cirbo.core.circuit import Circuit
-from cirbo.core.circuit.exceptions import CircuitValidationError
+from cirbo.core.circuit.exceptions import CircuitError, CircuitValidationError
 from cirbo.core.circuit.gate import Label
 from cirbo.core.circuit.operators import GateState, Undefined
 from cirbo.core.circuit.validation import check_circuit_has_no_cycles
@@ -571,9 +571,15 @@ def minimize_subcircuits(
         _rename_subcircuit_gates(
             new_circuit, new_subcircuit, input_labels_mapping, output_labels_mapping
         )
-        new_circuit.replace_subcircuit(
-            new_subcircuit, input_labels_mapping, output_labels_mapping
-        )
+        try:
+            new_circuit.replace_subcircuit(
+                new_subcircuit, input_labels_mapping, output_labels_mapping
+            )
+        except CircuitError:
+            # The cone cannot be cut out of the circuit (e.g. one of its inner
+            # gates is used elsewhere, or the result would be cyclic): skip it.
+            logger.debug("Subcircuit can not be replaced")
+            continue
 
         try:
             check_circuit_has_no_cycles(new_circuit)
